@@ -28,6 +28,7 @@ func init() {
 			{ID: "C10.R4", Text: "join order: both sort comparators return less ⇔ joinTime(i) < joinTime(j)", Run: c10r4},
 			{ID: "C10.R6", Text: "together with the partition rule: a member takes exactly chunk MemberNumber-1 of TotalMembers chunks (same rule as C09.R2)", Run: c09r2},
 			{ID: "C10.R7", Text: "leader-assigned variant, admission and removal: a registration replaces the follower's entry unconditionally (the table is mutated only by Store(name, service) in Add and Delete in Remove); the heart-beat removes exactly the followers whose Ping returned an error; the rpc calls return the retry helper's result, and Retry reports nil ⇔ some attempt succeeded (exhaustive for ≤ 4 attempts)", Run: c10r7},
+			{ID: "C10.R8", Text: "every follower is pinged, numbered and listed: every loop over a concurrent map runs to completion: the Range callback returns true on every path (frozen exception: markAbsentInstances stops at the error it returns)", Run: rangeComplete("servicediscovery.", "couchbase.cbMembership)")},
 			{ID: "C10.R5", Text: "Couchbase membership: lastActiveInstances is written only in the numbering step after the publish decision; on CAS mismatch the round is restarted (monitor re-entered), nothing is rewritten", Run: c10r5},
 		},
 	})
